@@ -1,6 +1,6 @@
 (* driver for the extracted shutdown machine (Lifecycle/Shutdown.v), C19 extension U.
    INIT <S> <W> <hw>                       -> "INIT n=<threads> flags=<bits> active=<n>"      (start-up side)
-   ACC <v> <S> <W> <sact bits> <wact bits> <ev;ev;...>
+   ACC <v> <S> <W> <sact bits> <wact bits> <queue lengths i,i,..> <ev;ev;...>
         the machine as ACCEPTOR of the event order logged by harness/c/c19_shutdown.c in one qthread_finalize
         (v = 1: the variant whose re-enabling test reads the shepherd's flag -- the seeded C19-3 / C19-4 change)
      -> "ACC ok|rej idx=<event index> fin=<pc> stuck=<i>:<j>|- exited=<n>/<n> termleft=<0|1> phantom=<n> steps=<n> mu=<first>-><last> done=<0|1> why=<text>" *)
@@ -16,9 +16,9 @@ let fpname = function
 exception Rej of string
 let rej fmt = Printf.ksprintf (fun s -> raise (Rej s)) fmt
 
-let accept v ns nw sact wact evs =
+let accept v ns nw sact wact tasks evs =
   let nthreads = ns * nw - 1 in
-  let s0 = init_state (nat_of_int ns) (nat_of_int nw) (nat_of_int (ns * nw)) sact [] in
+  let s0 = init_state (nat_of_int ns) (nat_of_int nw) (nat_of_int (ns * nw)) sact (List.map nat_of_int tasks) in
   let s0 = List.fold_left (fun (s, k) b -> (set_worker_flag s (nat_of_int k) b, k + 1)) (s0, 0) wact |> fst in
   let evs = Array.of_list evs in
   (* where each worker thread is when logging starts: its first event tells (a flag read: at the `while (!active)`
@@ -133,6 +133,7 @@ let accept v ns nw sact wact evs =
         | "WX" ->
           let k = a - 1 in let w = wk k in
           if w.wpc_ <> WExit then rej "worker %s leaves qthread_master without having taken a terminator" (wname k)
+        | "XD" -> s := set_worker_flag !s (nat_of_int (a - 1)) false     (* a concurrent qthread_disable_worker (op cd) *)
         | "XC" -> rej "worker thread %d applies a CAS to worker (%d,%d)'s flag during finalize" a b c
         | _ -> ()) evs;
     idx := Array.length evs;
@@ -154,9 +155,10 @@ let () =
          Printf.printf "INIT n=%d flags=%s active=%d\n" (List.length ws)
            (String.concat "" (List.map (fun x -> if x.wact then "1" else "0") ws))
            (int_of_nat (active_workers (nat_of_int s) (nat_of_int w) (nat_of_int hw)))
-       | "ACC" :: v :: s :: w :: sact :: wact :: rest ->
+       | "ACC" :: v :: s :: w :: sact :: wact :: qlen :: rest ->
+         let tasks = List.map int_of_string (List.filter (fun x -> x <> "") (String.split_on_char ',' qlen)) in
          let evs = List.filter (fun x -> x <> "") (String.split_on_char ';' (String.concat "" rest)) in
-         (try print_endline (accept (v = "1") (int_of_string s) (int_of_string w) (bits sact) (bits (if wact = "-" then "" else wact)) (List.map parse_ev evs))
+         (try print_endline (accept (v = "1") (int_of_string s) (int_of_string w) (bits sact) (bits (if wact = "-" then "" else wact)) tasks (List.map parse_ev evs))
           with Failure m -> Printf.printf "ACC error why=%s\n" m)
        | _ -> print_endline "ERR bad command");
       flush stdout
